@@ -100,3 +100,19 @@ def judge_parallel(ck, trace_module, trace_file, what, module_name, describe, cf
     for p in parts:
         os.remove(p)
     return total
+
+
+def mc_design(ck, module, cfg, what, workers=4, timeout=1500, coverage=False):
+    """Model-check a design-level model that mirrors the current tree.  A violated invariant is a
+    design-level counterexample of the property (reported as a violation with the TLC trace), any
+    other failure is a tool error."""
+    r = core.run_tlc(module, cfg, workers=workers, timeout=timeout, coverage=coverage)
+    if r["error"]:
+        raise core.ToolError(f"TLC failed on {module}/{cfg}: {r['error']}")
+    ck.add_mc(r, what)
+    if r["violated"]:
+        tail = [l for l in r["raw_tail"].splitlines() if l.startswith("State ") or l.startswith("/\\ pc")]
+        ck.violation({"module": module.replace("MC_", ""), "tag": "design:" + r["violated"]},
+                     f"the TLA+ model of the current tree ({module}, {cfg}) violates {r['violated']}: counterexample of {r['depth'] or len(tail)} states",
+                     {"tlc": {"module": module, "cfg": cfg}, "counterexample_tail": r["raw_tail"][-1800:]})
+    return r
